@@ -438,6 +438,23 @@ def enum_paths(body, max_paths=4000, start=0, env0=None, unroll=False):
                 for val, tb in t["targets"]:
                     succs.append((tb, (val,), False))
                 succs.append((t["otherwise"], tuple(v for v, _ in t["targets"]), True))
+                # consistency with earlier decisions on the very same term (e.g. `match game` twice,
+                # `a && x || !a && y`): infeasible combinations are not paths
+                prev = [(c[2], c[3]) for c in path.conds if c[1] == d]
+                if prev:
+                    def feasible(vals, neg):
+                        for pv, pn in prev:
+                            if not pn and not neg:
+                                if not (set(pv) & set(vals)):
+                                    return False
+                            elif not pn and neg:
+                                if set(pv) <= set(vals):
+                                    return False
+                            elif pn and not neg:
+                                if set(vals) <= set(pv):
+                                    return False
+                        return True
+                    succs = [x for x in succs if feasible(x[1], x[2])]
                 for tb, vals, neg in succs:
                     # skip unreachable arms
                     tblk = body.blocks[tb]
